@@ -10,7 +10,7 @@
    denotation of the whole byte string) are checked by the strict decoder oracle on the C's bytes and have no theorem
    yet (they need the Coq `Spec.decode` of C04, which is another file). *)
 From Coq Require Import List NArith String.
-From Wbxml Require Import Model.Codec Model.TablesDefs Model.EncWbxml Model.TreeNorm Proofs.EncWbxmlProofs Proofs.EncWbxmlSerialize Proofs.EncWbxmlDenote.
+From Wbxml Require Import Model.Codec Model.TablesDefs Model.EncWbxml Model.TreeNorm Proofs.EncWbxmlProofs Proofs.EncWbxmlSerialize Proofs.EncWbxmlDenote Proofs.EncWbxmlAbs Proofs.EncWbxmlStrict2.
 From Wbxml Require Model.Parser Model.Spec.
 Import ListNotations.
 Local Open Scope N_scope.
@@ -218,6 +218,35 @@ Theorem C06_strict_decoding_yields_normalised_source_partial : forall tblb TBL L
       = Some (Parser.EvStartDoc 106 (l_id L) :: flat_map events_node (norm (o_keep_ws o) [NElt (TagTok p t opts nm) [] ch]) ++ [Parser.EvEndDoc]).
 Proof. exact strict_decode_of_encoding. Qed.
 Print Assumptions C06_strict_decoding_yields_normalised_source_partial.
+
+(* WIDENED FRAGMENT (grammar level).  Whenever the conversion succeeds on a tree whose tags are tokens 5..63 (not
+   binary-flagged) or names unknown to the tag table, with ANY attributes (token starts with or without value prefix, literal
+   starts, attribute value tokens, inline remainders, attribute code page switches), with text content, WITH OR WITHOUT
+   string table (table references, literal indices), with numeric, textual or anonymous public id, in a language without
+   typed values (not WV, DRMREL, SyncML, SI, EMN, OTA settings): the bytes are Spec.serialize of the abstract document
+   abs_doc2 (computed from the encoder's own final state), and that document is strict (Spec.strict_doc: table
+   NUL-terminated, every STR_T / literal / public-id index at the first octet of an entry).
+   Side conditions: the final table and the id string are shorter than 2^32 octets.
+   STILL OUTSIDE: typed content and typed attribute values, the SyncML MIME rewrite, binary-flagged (OPAQUE) content, CDATA,
+   PIs, embedded trees. *)
+Theorem C06_output_is_serialize_of_strict_doc_wide_partial : forall tbl l o tag attrs ch bs,
+  let e := enc_env l o in
+  plain_env e = true -> frag2_node e (NElt tag attrs ch) = true ->
+  enc_wbxml tbl l o [NElt tag attrs ch] = EOk bs ->
+  exists body st' root,
+    enc_body tbl l o [NElt tag attrs ch] = EOk (body, st') /\
+    abs_node e None (NElt tag attrs ch) (start_state e [NElt tag attrs ch]) = Some ([root], st') /\
+    ((let '(_, t, _) := header_table e st' in tbl_size t < 4294967296) ->
+     (match header_pid e with Some p => len p + 1 < 4294967296 | None => True end) ->
+     bs = Spec.serialize (abs_doc2 e st' root) /\ Spec.strict_doc (abs_doc2 e st' root) = true).
+Proof.
+  cbv zeta. intros tbl l o tag attrs ch bs HP HF E.
+  destruct (enc_wbxml_serialize2 tbl l o tag attrs ch bs HP HF E) as (st' & root & EB & AN & HS).
+  eexists _, st', root. split; [exact EB|]. split; [exact AN|]. intros Hb Hp. split.
+  - apply HS. exact (header_len_ok_holds tbl l o tag attrs ch _ st' root EB AN Hb Hp).
+  - exact (abs_doc2_strict tbl l o tag attrs ch _ st' root EB AN Hb).
+Qed.
+Print Assumptions C06_output_is_serialize_of_strict_doc_wide_partial.
 
 (* the hypotheses are satisfiable: <p> a </p> in a one-tag language, trimmed, strictly decoded from the encoder's bytes *)
 Example C06_fragment_example :
